@@ -171,6 +171,9 @@ func (c *Cond) Wait() {
 		runtime.Goexit()
 	}
 	o := c.sync(s)
+	// entering Wait is a scheduling point of its own: a Signal/Broadcast issued by a thread that
+	// does not hold L can land between the caller's last check and its registration as a waiter
+	s.point("cond.Wait(enter)", o, nil)
 	tok := new(int)
 	c.waiters = append(c.waiters, tok)
 	c.L.Unlock()
